@@ -91,6 +91,8 @@ func (b Blob) Undecodable() bool { return b.Kind == "badmanifest" }
 //	untag    ref             Untag(ref)
 //	delete   blob            Delete(desc(blob))      (AutoGC off: plain delete)
 //	saveindex                SaveIndex()
+//	tagdigest   blob         Tag(desc(blob), <digest string of blob>)
+//	untagdigest blob         Untag(<digest string of blob>)   (refused: a digest is not a tag)
 //	gc                       GC()
 //	reopen                   oci.New on the same directory (a second store object)
 //
@@ -113,6 +115,8 @@ func (o Op) String() string {
 		return fmt.Sprintf("tag:%d:%d", o.Blob, o.Ref)
 	case "untag":
 		return fmt.Sprintf("untag:%d", o.Ref)
+	case "tagdigest", "untagdigest":
+		return fmt.Sprintf("%s:%d", o.Kind, o.Blob)
 	}
 	return o.Kind
 }
